@@ -99,9 +99,10 @@ reg(Spec("C06", "Loss, duplication or reordering never yields a corrupted packet
 reg(Spec("C15", "TECMP messages convert to equivalent ASAM CMP packets", ["AsamCmp.Props.C15"],
          ["AsamCmp.C15.hdr_length", "AsamCmp.C15.C15_can", "AsamCmp.C15.C15_lin", "AsamCmp.C15.C15_cm", "AsamCmp.C15.C15_bus", "AsamCmp.C15.C15_unsupported", "AsamCmp.C15.C15_misfit_can", "AsamCmp.C15.C15_misfit_lin", "AsamCmp.C15.C15_misfit_cm", "AsamCmp.C15.C15_misfit_bus", "AsamCmp.C15.C15_misfit_header", "AsamCmp.C15.C15_valid_payloads"], ["AsamCmp.Props.C15"], gen_dec.gen_c15, predicate=gen_dec.pred_c15,
          rule="TECMP frames from the layout table: CAN/CAN-FD/LIN of every data length, capture-module and bus status, all 256 message types, inconsistent lengths"))
-reg(Spec("C17", "Decoder keeps reassembly state only for messages in progress", ["AsamCmp.Props.C17", "AsamCmp.Props.C05b"],
-         ["AsamCmp.parseFrame_WF", "AsamCmp.localStep_refines", "AsamCmp.C17_pending_iff_open", "AsamCmp.C17_pending_bytes", "AsamCmp.C17_idle_empty", "AsamCmp.C17_support", "AsamCmp.C17_release", "AsamCmp.C17_last_releases", "AsamCmp.decode_foreign_state", "AsamCmp.C05b.decodeAll_state", "AsamCmp.C05b.C17_bytes"],
-         ["AsamCmp.Props.C17", "AsamCmp.Props.C05b"], gen_dec.gen_c17, predicate=gen_dec.pred_c17,
+reg(Spec("C17", "Decoder keeps reassembly state only for messages in progress", ["AsamCmp.Props.C17", "AsamCmp.Props.C05b", "AsamCmp.Props.C17b"],
+         ["AsamCmp.parseFrame_WF", "AsamCmp.localStep_refines", "AsamCmp.C17_pending_iff_open", "AsamCmp.C17_pending_bytes", "AsamCmp.C17_idle_empty", "AsamCmp.C17_support", "AsamCmp.C17_release", "AsamCmp.C17_last_releases", "AsamCmp.decode_foreign_state", "AsamCmp.C05b.decodeAll_state", "AsamCmp.C05b.C17_bytes",
+          "AsamCmp.C17b.tableOk_empty", "AsamCmp.C17b.decodeLL_refines", "AsamCmp.C17b.runLL_refines", "AsamCmp.C17b.table_entries"],
+         ["AsamCmp.Props.C17", "AsamCmp.Props.C05b", "AsamCmp.Props.C17b"], gen_dec.gen_c17, predicate=gen_dec.pred_c17,
          rule="exhaustive histories over {unseg, first, inter, last, invalid, header-only, unseg+inter, TECMP, short} x 2 endpoints x good/bad counter; random histories; pending table read after every frame"))
 reg(Spec("C18", "Endpoints are isolated from each other", ["AsamCmp.Props.C18"],
          ["AsamCmp.runT_untag", "AsamCmp.delivered_tagged", "AsamCmp.run_filter", "AsamCmp.C18_isolation", "AsamCmp.decode_foreign_state", "AsamCmp.decode_other_endpoint"], ["AsamCmp.Props.C18"], gen_dec.gen_c18, predicate=gen_dec.pred_c18,
